@@ -3,8 +3,8 @@
 From Coq Require Import ZArith String List Bool QArith Qround Qminmax Qabs Lia.
 From QV Require Import QTools.OpCount QTools.OpCountSyn Link.OpCountLink.
 From QVGen Require Import OpCountGen.
-From QVGen Require EnergyGen MemGen.
-From QV Require QTools.Energy Link.EnergyLink Link.MemLink.
+From QVGen Require EnergyGen MemGen ExtractGen.
+From QV Require QTools.Energy Link.EnergyLink Link.MemLink Link.ExtractLink.
 Open Scope Z_scope.
 Import ListNotations.
 
@@ -211,3 +211,22 @@ Theorem C19_code_sram_pays_one_access : forall rw dr dw sr sw,
 Proof. intros. rewrite MemLink.link_mem_read, MemLink.link_mem_write.
   destruct (Energy.mem_sram_pays_one_sram_access rw dr dw sr sw) as [R W]. rewrite R, W. split; reflexivity. Qed.
 Print Assumptions C19_code_sram_pays_one_access.
+
+(* ---- which entries a cost setting selects, as /repo has it now (coq/gen/ExtractGen.v, regenerated on every run) ---- *)
+Close Scope Q_scope.
+Theorem C19_extract_translation_ok : ExtractGen.extract_translation_ok = true.
+Proof. exact ExtractLink.link_extract_ok. Qed.
+(* an EMPTY class rule selects nothing (it does not fall through to the default rule); a class rule beats the default; without a class
+   rule the default rule applies *)
+Theorem C19_code_empty_class_rule_selects_nothing : forall setting cls, In (cls, []) setting -> NoDup (map fst setting) ->
+  ExtractGen.gen_keys_for setting cls = [].
+Proof. intros. rewrite ExtractLink.link_keys_for. apply Energy.empty_class_rule_selects_nothing; assumption. Qed.
+Print Assumptions C19_code_empty_class_rule_selects_nothing.
+Theorem C19_code_class_rule_beats_default : forall setting cls ks, In (cls, ks) setting -> NoDup (map fst setting) ->
+  ExtractGen.gen_keys_for setting cls = ks.
+Proof. intros. rewrite ExtractLink.link_keys_for. apply Energy.class_rule_beats_default; assumption. Qed.
+Print Assumptions C19_code_class_rule_beats_default.
+Theorem C19_code_no_class_rule_uses_default : forall setting cls, ~ In cls (map fst setting) ->
+  ExtractGen.gen_keys_for setting cls = Energy.dget setting "default"%string [].
+Proof. intros. rewrite ExtractLink.link_keys_for. apply Energy.no_class_rule_uses_default; assumption. Qed.
+Print Assumptions C19_code_no_class_rule_uses_default.
